@@ -189,7 +189,7 @@ def run(rep: common.Reporter, tier: str, prop: str = 'C17') -> dict:
     traces: list = []
     with mp.Pool(16) as pool:
         jobs = [(seed + j, [seed % 12], ch, 2 if tier == 'quick' else 4) for j, ch in enumerate(common.chunked(docs, 10))]
-        for tr in pool.imap_unordered(_chunk, jobs):
+        for tr in common.gmap(pool, rep, _chunk, jobs):
             traces.extend(tr)
     for t in traces:
         if t.get('crash'):
